@@ -143,6 +143,12 @@ pub struct Case {
     pub listeners: u8,
     pub allow_deep: bool,
     pub ops: Vec<Op>,
+    /// Some((blocks, variant)): node-level scenario instead of the bare tracker: a real Node
+    /// configured with one trusted oracle connects `blocks` attested blocks, is restarted from its
+    /// store (variants 0, 1) and is then offered a block attested by an untrusted key only
+    /// (variants 0, 2) or by the trusted oracle (variant 1)
+    #[serde(default)]
+    pub node_restore: Option<(u8, u8)>,
 }
 
 // ---------------------------------------------------------------------------------------------
@@ -434,6 +440,65 @@ enum Flow {
     Continue,
     /// the case cannot usefully continue (panic inside the tracker, model lost)
     Stop,
+}
+
+/// Node-level scenario: the oracle set a node validates blocks against must survive a restart.
+fn run_node_restore(blocks: u8, variant: u8, st: &mut CaseStats, ctx: &Ctx) -> Result<(), Violation> {
+    use crate::chainpool::{make_block, make_proof, regtest_cfg};
+    use lightning_signer::bitcoin::key::Keypair;
+    use lightning_signer::bitcoin::secp256k1::{Secp256k1, SecretKey};
+    use lightning_signer::txoo::util::sign_attestation;
+    let secp = Secp256k1::new();
+    // chainpool::make_proof signs with this key
+    let trusted = PublicKey::from_secret_key(&secp, &SecretKey::from_slice(&[2u8; 32]).unwrap());
+    let mut cfg = regtest_cfg();
+    cfg.trusted_oracles = vec![trusted];
+    let mut w = crate::world::World::new(cfg);
+    let connect = |w: &crate::world::World, untrusted: bool, salt: u64| -> Result<(), String> {
+        let node = w.node.clone();
+        let mut tracker = node.get_tracker();
+        let height = tracker.height() + 1;
+        let block = make_block(&tracker.tip().0, height, salt, vec![]);
+        let (txids, outpoints) = tracker.get_all_forward_watches();
+        let mut proof = make_proof(&block, &tracker.tip().1, height, &txids, &outpoints, false);
+        if untrusted {
+            let kp = Keypair::from_secret_key(&secp, &SecretKey::from_slice(&[0x55u8; 32]).unwrap());
+            let pk = PublicKey::from_secret_key(&secp, &SecretKey::from_slice(&[0x55u8; 32]).unwrap());
+            let att = proof.attestations[0].1.attestation.clone();
+            proof.attestations = vec![(pk, sign_attestation(att, &kp, &secp))];
+        }
+        match tracker.add_block(block.header, proof) {
+            Ok(()) => {
+                node.get_persister().update_tracker(&node.get_id(), &tracker).map_err(|e| format!("{:?}", e))?;
+                Ok(())
+            }
+            Err(e) => Err(format!("{:?}", e)),
+        }
+    };
+    for k in 0..blocks.max(1) {
+        if let Err(e) = connect(&w, false, k as u64) {
+            panic!("harness: attested block refused by a fresh node: {}", e);
+        }
+    }
+    let restarted = variant % 3 != 2;
+    if restarted {
+        let r = w.restart();
+        if !r.is_ok() {
+            st.class("node-restore:restart-failed");
+            return Ok(());
+        }
+    }
+    let untrusted = variant % 3 != 1;
+    let res = connect(&w, untrusted, 99);
+    st.class(format!("node-restore:{}:{}:{}", if restarted { "restarted" } else { "running" }, if untrusted { "untrusted-attestation" } else { "trusted-attestation" }, if res.is_ok() { "accepted" } else { "refused" }));
+    if untrusted && res.is_ok() {
+        return ctx.report(st, Violation::new(
+            format!("C13:accepted-invalid:attestation:node-{}", if restarted { "after-restart" } else { "running" }),
+            format!("a node configured with one trusted oracle ({} blocks connected{}) accepted a block attested only by an untrusted key", blocks.max(1), if restarted { ", then restarted from its store" } else { "" }),
+        ));
+    }
+    st.nontrivial_shape(("node-restore", blocks.max(1), variant % 3, res.is_ok()));
+    Ok(())
 }
 
 pub struct C13;
@@ -1064,8 +1129,15 @@ impl Prop for C13 {
             0u8..3,
             prop_oneof![4 => Just(false), 1 => Just(true)],
             proptest::collection::vec(op_strat(), 1..=n),
+            prop_oneof![40 => Just(None), 1 => (1u8..4, 0u8..3).prop_map(Some)],
         )
-            .prop_map(|(start, oracles, listeners, allow_deep, ops)| Case { start, oracles, listeners, allow_deep, ops })
+            .prop_map(|(start, oracles, listeners, allow_deep, ops, node_restore)| {
+                if node_restore.is_some() {
+                    Case { start: Start::Genesis, oracles: 1, listeners: 0, allow_deep: false, ops: vec![], node_restore }
+                } else {
+                    Case { start, oracles, listeners, allow_deep, ops, node_restore }
+                }
+            })
             .boxed()
     }
     fn fixed_cases(&self) -> Vec<Case> {
@@ -1085,6 +1157,7 @@ impl Prop for C13 {
         vec![
             // refused removal (bad proof) then correct removal
             Case {
+                node_restore: None,
                 start: synth.clone(),
                 oracles: 1,
                 listeners: 1,
@@ -1093,6 +1166,7 @@ impl Prop for C13 {
             },
             // refused streamed add (orphan) then correct streamed add
             Case {
+                node_restore: None,
                 start: synth.clone(),
                 oracles: 1,
                 listeners: 1,
@@ -1104,6 +1178,7 @@ impl Prop for C13 {
             },
             // refused compact add then correct add, wrong previous header on removal then correct removal
             Case {
+                node_restore: None,
                 start: synth,
                 oracles: 3,
                 listeners: 2,
@@ -1118,6 +1193,9 @@ impl Prop for C13 {
         ]
     }
     fn run(&self, case: &Case, st: &mut CaseStats, ctx: &Ctx) -> Result<(), Violation> {
+        if let Some((blocks, variant)) = case.node_restore {
+            return run_node_restore(blocks, variant, st, ctx);
+        }
         let mut w = World::new(case);
         st.class(match &case.start {
             Start::Genesis => "start:genesis",
